@@ -8,6 +8,10 @@
 //   SHIM_MODEL=a|b         b: at the crash, every file's bytes written after its last successful
 //                          fsync/fdatasync are dropped (directory operations persist)
 //   SHIM_FAIL_AT=<n>:<errno>  the n-th counted call fails with errno instead of executing
+//   SHIM_STALL_AT=<n>      if the n-th counted call is the rename of a flushed write-ahead log into trash/, it is
+//                          not executed and reports success (logged as "stall"): the schedule in which the memtable
+//                          thread is descheduled just before that rename while every other thread keeps running;
+//                          used together with a later SHIM_CRASH_AT
 //
 // Counted calls: write, pwrite64, fsync, fdatasync, link, linkat, rename, renameat, unlink, unlinkat,
 // mkdir, rmdir, ftruncate64/ftruncate, and open/open64/openat with O_CREAT (only when the file did
@@ -33,6 +37,7 @@ static int logfd = -1;
 static long counter = 0;
 static long crash_at = 0;
 static long fail_at = 0;
+static long stall_at = 0;
 static int fail_errno = 0;
 static char model = 'a';
 
@@ -85,6 +90,8 @@ static void init(void) {
     if (c) crash_at = atol(c);
     const char *m = getenv("SHIM_MODEL");
     if (m && m[0] == 'b') model = 'b';
+    const char *sa = getenv("SHIM_STALL_AT");
+    if (sa) stall_at = atol(sa);
     const char *f = getenv("SHIM_FAIL_AT");
     if (f) { fail_at = atol(f); const char *colon = strchr(f, ':'); fail_errno = colon ? atoi(colon + 1) : EIO; }
 }
@@ -274,6 +281,13 @@ int linkat(int d1, const char *a, int d2, const char *b, int flags) {
     if (under_root(pb)) done("link", pa, pb, 0, r);
     return r;
 }
+// called with mu held, right after gate(): is this the rename to hold back?
+static int stalled(const char *pa, const char *pb) {
+    if (stall_at <= 0 || cur_n != stall_at) return 0;
+    if (strncmp(rel(pa), "log.", 4) != 0 || strncmp(rel(pb), "trash/", 6) != 0) return 0;
+    logline("{\"call\":\"stall\",\"n\":%ld,\"path\":\"%s\",\"path2\":\"%s\"}", cur_n, rel(pa), rel(pb));
+    return 1;
+}
 static void renamed(const char *pa, const char *pb) {
     // keep inode->path bookkeeping for model (b)
     for (int s = 0; s < MAXINO; s++)
@@ -284,6 +298,7 @@ int rename(const char *a, const char *b) {
     char pa[1200], pb[1200]; abspath(AT_FDCWD, a, pa, sizeof pa); abspath(AT_FDCWD, b, pb, sizeof pb);
     int counted = under_root(pb) || under_root(pa);
     if (counted && gate("rename", pa, pb, 0) != 0) { pthread_mutex_unlock(&mu); return -1; }
+    if (counted && stalled(pa, pb)) { pthread_mutex_unlock(&mu); return 0; }
     pthread_mutex_unlock(&mu);
     int r = real_rename(a, b);
     if (r == 0 && counted) { pthread_mutex_lock(&mu); renamed(pa, pb); pthread_mutex_unlock(&mu); }
@@ -295,6 +310,7 @@ int renameat(int d1, const char *a, int d2, const char *b) {
     char pa[1200], pb[1200]; abspath(d1, a, pa, sizeof pa); abspath(d2, b, pb, sizeof pb);
     int counted = under_root(pb) || under_root(pa);
     if (counted && gate("rename", pa, pb, 0) != 0) { pthread_mutex_unlock(&mu); return -1; }
+    if (counted && stalled(pa, pb)) { pthread_mutex_unlock(&mu); return 0; }
     pthread_mutex_unlock(&mu);
     int r = real_renameat(d1, a, d2, b);
     if (r == 0 && counted) { pthread_mutex_lock(&mu); renamed(pa, pb); pthread_mutex_unlock(&mu); }
